@@ -7,6 +7,8 @@ import (
 	"path/filepath"
 	"runtime"
 	"time"
+
+	"github.com/rqlite/rqlite/v10/internal/verifhook"
 )
 
 // PathExists returns true if the given path exists.
@@ -143,6 +145,7 @@ func SyncDir(dir string) error {
 		return err
 	}
 	defer fh.Close()
+	defer verifhook.DirSynced(dir)
 	return fh.Sync()
 }
 
